@@ -262,6 +262,10 @@ def render_ini(ctx, target_spelling=None, bad=None):
     tgt = target_spelling or m["tgt"]
     L = ctx.L
     out = ["[Tabulation]", "target : %s" % tgt, "nr : %d" % m["nr"], "cutoff : %s" % dec(ctx.cutoff)]
+    if ctx.case.get("rejects") and bad is None:
+        # a row count that must be refused is refused however the rest of the section spells the extent of the table:
+        # nr + cutoff, nr alone (the cutoff takes its default), nr + dr
+        out = [out[:4], out[:3], out[:3] + ["dr : 0.25"]][ctx.idx % 3]
     if m["nrho"]:
         out += ["nrho : %d" % m["nrho"], "cutoff_rho : %s" % dec(ctx.cutoff_rho)]
     out.append("")
